@@ -187,7 +187,17 @@ def gen_replace(tree, out):
     expect_same(iff.body[1], 'return col')
     expect_same(b[2], 'import numpy as np')
     l1 = _for(b[3], '(old, new)', 'mappings.items()', 3)
-    expect_same(l1[0], 'b = np.isnan(col._seq) if np.isnan(old) else col._seq == old')
+    # the NumPy branch: which cells are overwritten.  np.isnan(<array>) and <array> == old are element-wise
+    # (modelled per cell); the choice between them is translated.
+    st = l1[0]
+    if not (isinstance(st, ast.Assign) and len(st.targets) == 1 and ast.unparse(st.targets[0]) == 'b'):
+        raise TranslationError('replace: mask statement changed: `%s`' % ast.unparse(st))
+    env = Env([('np.isnan(old)', 'old_is_nan', 'bool'), ('np.isnan(col._seq)', 'cell_is_nan', 'bool'),
+               ('col._seq == old', 'cell_eq_old', 'bool'), ('old == col._seq', 'cell_eq_old', 'bool')])
+    out.append('(* replace, NumPy branch: is a cell overwritten?  old_is_nan = np.isnan(old), per cell: cell_is_nan = '
+               'np.isnan(cell), cell_eq_old = (cell == old) *)\n'
+               'Definition k_replace_mask (old_is_nan cell_is_nan cell_eq_old : bool) : bool := %s.\n'
+               % tr_typed(st.value, env, 'bool'))
     expect_same(l1[1], 'i = np.where(b)')
     expect_same(l1[2], 'col._seq[i] = new')
     expect_same(b[4], 'return col')
@@ -236,12 +246,39 @@ def gen_keep_only(tree, out):
     fn = find_function(tree, '_colname')
     _args(fn, ['col'])
     cb = body_nodoc(fn)
-    if len(cb) != 3:
-        raise TranslationError('_colname: statements')
-    expect_same(cb[0], 'if isinstance(col, basestring):\n    return col')
-    expect_same(cb[1], 'if isinstance(col, BaseColumn):\n    return col.name')
-    if not (isinstance(cb[2], ast.Raise) and ast.unparse(cb[2].exc.func) == 'ValueError'):
-        raise TranslationError('_colname: fallthrough no longer raises ValueError')
+    # the dispatch chain of _colname is translated: `if TEST: return VALUE` ... `raise E(...)`
+    env = Env([('isinstance(col, basestring)', 'is_str', 'bool'), ('isinstance(col, str)', 'is_str', 'bool'),
+               ('isinstance(col, BaseColumn)', 'is_column', 'bool')])
+    values = {dump(parse_expr('col')): 'as_str', dump(parse_expr('col.name')): 'name'}
+    out.append('(* _colname: a str is its own name (as_str), a column object answers col.name (name), anything else raises *)\n'
+               'Definition k_colname {A : Type} (is_str is_column : bool) (as_str name : A) : res A := %s.\n'
+               % _return_chain(cb, env, values, '_colname'))
+
+
+EXN_NAMES = ('ValueError', 'TypeError', 'IndexError', 'KeyError', 'AttributeError', 'OverflowError', 'ZeroDivisionError')
+
+
+def _return_chain(stmts, env, values, what):
+    """`if T1: return V1` ... ending in `return V` or `raise E(...)`  ->  if T1 then Ok V1 else ... (res)."""
+    if not stmts:
+        raise TranslationError('%s: falls off the end' % what)
+    st = stmts[0]
+    if isinstance(st, ast.If):
+        if st.orelse or len(st.body) != 1:
+            raise TranslationError('%s: branch shape changed: `%s`' % (what, ast.unparse(st).split('\n')[0]))
+        return '(if %s then %s else %s)' % (tr_typed(st.test, env, 'bool'), _return_chain(st.body, env, values, what),
+                                            _return_chain(stmts[1:], env, values, what))
+    if len(stmts) != 1:
+        raise TranslationError('%s: statements after `%s`' % (what, ast.unparse(st).split('\n')[0]))
+    if isinstance(st, ast.Return) and st.value is not None:
+        v = values.get(dump(st.value))
+        if v is None:
+            raise TranslationError('%s: returned value `%s` outside the grammar' % (what, ast.unparse(st.value)))
+        return '(Ok %s)' % v
+    if isinstance(st, ast.Raise) and isinstance(st.exc, ast.Call) and isinstance(st.exc.func, ast.Name) \
+            and st.exc.func.id in EXN_NAMES:
+        return '(Raise %s)' % st.exc.func.id
+    raise TranslationError('%s: statement outside the grammar: `%s`' % (what, ast.unparse(st).split('\n')[0]))
 
 
 def gen_getitem(repo, out):
@@ -262,8 +299,29 @@ def gen_getitem(repo, out):
     nb = body_nodoc(fn)
     if len(nb) != 4:
         raise TranslationError('BaseColumn.name: statements')
-    expect_same(nb[0], 'l = [name for name, col in self._datamatrix.columns if col is self]')
-    expect_same(nb[1], 'if not l:\n    return None')
+    # l = [name for name, col in self._datamatrix.columns if <col is self>]: the names under which this very object
+    # is held by its own DataMatrix, looked up on every call (no cache); the filter is translated
+    st = nb[0]
+    if not (isinstance(st, ast.Assign) and len(st.targets) == 1 and ast.unparse(st.targets[0]) == 'l'
+            and isinstance(st.value, ast.ListComp) and len(st.value.generators) == 1):
+        raise TranslationError('BaseColumn.name: the name list is no longer one comprehension: `%s`' % ast.unparse(st))
+    g = st.value.generators[0]
+    expect_same(st.value.elt, 'name', 'BaseColumn.name element')
+    if ast.unparse(g.target) != '(name, col)':
+        raise TranslationError('BaseColumn.name: loop target `%s`, expected `(name, col)`' % ast.unparse(g.target))
+    expect_same(g.iter, 'self._datamatrix.columns', 'BaseColumn.name iterable')
+    if len(g.ifs) != 1 or g.is_async:
+        raise TranslationError('BaseColumn.name: filter of the comprehension changed')
+    env = Env([('col is self', 'same_object', 'bool'), ('self is col', 'same_object', 'bool'),
+               ('col is not self', '(negb same_object)', 'bool'), ('self is not col', '(negb same_object)', 'bool')])
+    out.append('(* BaseColumn.name: is the name of a column of the owner kept? (same_object = col is self) *)\n'
+               'Definition k_name_keep (same_object : bool) : bool := %s.\n' % tr_typed(g.ifs[0], env, 'bool'))
+    if not (isinstance(nb[1], ast.If) and not nb[1].orelse and len(nb[1].body) == 1):
+        raise TranslationError('BaseColumn.name: no-name test')
+    env = Env([('l', '(negb (Z.eqb n (0)%Z))', 'bool'), ('len(l)', 'n', 'Z')])      # truth value of a list
+    out.append('(* BaseColumn.name: None is returned when this holds (n = len(l)) *)\n'
+               'Definition k_name_none (n : Z) : bool := %s.\n' % tr_typed(nb[1].test, env, 'bool'))
+    expect_same(nb[1].body[0], 'return None')
     env = Env([('len(l)', 'n', 'Z')])
     if not isinstance(nb[2], ast.If) or nb[2].orelse:
         raise TranslationError('BaseColumn.name: single-name test')
